@@ -506,7 +506,9 @@ class HierDictDocument(DictDocument):
                     retval.append(self._to_dict_value(cls, subinst, tags,
                                                       cls_orig=cls_orig or cls))
 
-        else:
+        elif inst is not None:
+            # inst can be None here when the value inside a stripped wrapper
+            # is None, which is null, not an object with no members.
             retval = self._to_dict_value(cls, inst, tags,
                                                        cls_orig=cls_orig or cls)
 
